@@ -1,5 +1,5 @@
 import H264.Derived
-import H264.C20
+import H264.C20Prof
 /-! # C13 — SPS-derived values (size, fps, level, profile, codec string) match the standard
 
 `pixelDimensions` mirrors `SeqParameterSet::pixel_dimensions` with every `checked_mul` / `checked_sub` of the Rust as
